@@ -59,7 +59,9 @@ def boot_file_op(g, rng, model, media):
         words = _st.unpack('<%dI' % ((length - 64) // 4), bytes(body[64:64 + (length - 64) // 4 * 4]))
         tail = bytes(body[64 + (length - 64) // 4 * 4:])
         csum = (sum(words) + (int.from_bytes(tail.ljust(4, b'\x00'), 'little') if tail else 0)) & 0xffffffff
-        body[8:64] = _st.pack('<IIII', 16, rng.choice([7, 33, 1000]), length, csum) + b'\x00' * 40
+        # (a file sector no file of these images can have: otherwise the bytes would be a valid table
+        # of this very image, and the library rightly treats them as one when the image is opened)
+        body[8:64] = _st.pack('<IIII', 16, rng.choice([1, 7, 0x00fffff0]), length, csum) + b'\x00' * 40
         data = bytes(body)
         premade = True
     op = {'op': 'add_fp', 'cid': g.new_cid(), 'length': length}
